@@ -50,11 +50,25 @@ def expansions(chk, probe, model, r, files, opts, what, dist, check_model=True):
         replay = {"files": files, "opts": opts, "mode": t, "expanded": x["text"]}
         if r2.get("parse_errors") or not r2.get("ok"):
             msgs = [e["msg"] for e in (r2.get("parse_errors") or []) + (r2.get("errors") or [])][:3]
-            chk.oracle_failure(None, "%s: the program assembles, its expansion by hand (%s) does not: %s" % (what, t, msgs or r2.get("panic")), replay)
+            klass = None
+            allmsgs = [e["msg"] for e in (r2.get("errors") or [])]
+            if not r2.get("parse_errors") and allmsgs and all(m_.startswith("unknown identifier: ") for m_ in allmsgs):
+                names = [m_.split(": ", 1)[1] for m_ in allmsgs]
+                have = [s_[0] for s_ in r2.get("symbols", [])]
+                if all(any(h == n_ or h.endswith("." + n_) for h in have) for n_ in names):
+                    # every identifier reported as unknown is defined: the pass loop took "changed in two consecutive passes" for "undefined"
+                    klass = "Known_changed_reported_unknown"
+            chk.oracle_failure(klass, "%s: the program assembles, its expansion by hand (%s) does not: %s" % (what, t, msgs or r2.get("panic")), replay)
             dist["expand"][t + ":FAIL"] = dist["expand"].get(t + ":FAIL", 0) + 1
             continue
         if image(r) != image(r2):
             a, b = image(r), image(r2)
+            stale = stale_of(model, r, opts)
+            if stale:
+                chk.oracle_failure("Known_stale_symbol_survives", "%s: the program and its expansion by hand (%s) assemble to different bytes; the build of the "
+                                   "program kept symbols that its last pass never wrote: %s" % (what, t, stale[:4]), replay)
+                dist["expand"][t + ":known"] = dist["expand"].get(t + ":known", 0) + 1
+                continue
             first = next((i for i in range(min(len(a), len(b))) if a[i] != b[i]), 0)
             chk.oracle_failure(None, "%s: the program and its expansion by hand (%s) assemble to different bytes: segment %s %s.. vs %s.." % (
                 what, t, a[first][0] if a else "?", (a[first][3] if a else "")[:40], (b[first][3] if first < len(b) else "")[:40]), replay)
@@ -64,6 +78,19 @@ def expansions(chk, probe, model, r, files, opts, what, dist, check_model=True):
         if t == "all" and check_model and "ast" in r2:
             # tie on the expanded program as well
             c02.correspondence(chk, model, r2, f2, opts, what + " (expanded)")
+
+
+def stale_of(model, r, opts):
+    """symbols of the build that were left over from an earlier pass (pass stamps are visible in the model only; the
+    model is tied to the implementation by the correspondence check of the same program)"""
+    mreq = {"cmd": "codegen", "ast": r.get("ast")}
+    mreq.update(opts)
+    m = model.call(mreq, timeout=120)
+    if m.get("status") != "done":
+        return []
+    if c02.sym_key(r["symbols"]) != c02.sym_key(m["symbols"]):
+        return []
+    return [p for p, t in m.get("stale", [])]
 
 
 def corpus_cases():
@@ -82,7 +109,7 @@ def run(chk):
     probe = Proc([common.build_probe("harness_c02", "c02probe")])
     model = Proc([common.build_model("asm")])
     thorough = chk.tier == "thorough"
-    n = 1500 if thorough else 300
+    n = 2000 if thorough else 500
     dist = {"programs": 0, "ok": 0, "failed": 0, "expand": {}, "kinds": {}, "nested_constructs": 0, "max_nesting": 0, "statements": 0}
     seen = set()
 
